@@ -314,6 +314,7 @@ func visitInstr(fr *frame, instr ssa.Instruction) continuation {
 		for i := range slice {
 			slice[i] = zero(tElt)
 		}
+		fr.i.ex.noteFreshSlice(slice)
 		fr.env[instr] = slice[:asInt64(fr.get(instr.Len))]
 
 	case *ssa.MakeMap:
@@ -324,7 +325,11 @@ func visitInstr(fr *frame, instr ssa.Instruction) continuation {
 		if !fitsInt(reserve, fr.i.sizes) {
 			panic(fmt.Sprintf("ssa.MakeMap.Reserve value %d does not fit in int", reserve))
 		}
-		fr.env[instr] = makeMap(instr.Type().Underlying().(*types.Map).Key(), reserve)
+		mm := makeMap(instr.Type().Underlying().(*types.Map).Key(), reserve)
+		if fr.i.ex != nil && fr.i.ex.track != nil {
+			fr.i.ex.track.freshMaps[mm.(*omap)] = true
+		}
+		fr.env[instr] = mm
 
 	case *ssa.Range:
 		fr.env[instr] = rangeIter(fr.get(instr.X), instr.X.Type())
@@ -337,7 +342,9 @@ func visitInstr(fr *frame, instr ssa.Instruction) continuation {
 		if px == nil {
 			panic(targetRuntimeError("invalid memory address or nil pointer dereference"))
 		}
-		fr.env[instr] = &(*px).(structure)[instr.Field]
+		fa := &(*px).(structure)[instr.Field]
+		fr.i.ex.noteDerived(px, fa)
+		fr.env[instr] = fa
 
 	case *ssa.Field:
 		fr.env[instr] = fr.get(instr.X).(structure)[instr.Field]
@@ -350,7 +357,9 @@ func visitInstr(fr *frame, instr ssa.Instruction) continuation {
 			fr.env[instr] = &x[fr.i.ex.index(idx, len(x))]
 		case *value: // *array
 			a := (*x).(array)
-			fr.env[instr] = &a[fr.i.ex.index(idx, len(a))]
+			ia := &a[fr.i.ex.index(idx, len(a))]
+			fr.i.ex.noteDerived(x, ia)
+			fr.env[instr] = ia
 		default:
 			panic(fmt.Sprintf("unexpected x type in IndexAddr: %T", x))
 		}
@@ -528,6 +537,9 @@ func callSSAraw(i *interpreter, fr *frame, fn *ssa.Function, args []value, env [
 	for i, l := range fn.Locals {
 		fr.locals[i] = zero(mustDeref(l.Type()))
 		fr.env[l] = &fr.locals[i]
+		if i2 := fr.i.ex; i2 != nil && i2.track != nil {
+			i2.noteAlloc(&fr.locals[i])
+		}
 	}
 	for i, p := range fn.Params {
 		fr.env[p] = args[i]
